@@ -406,11 +406,16 @@ struct Shared<K: SimKey> {
     hist: StdMutex<Vec<HEv>>,
     failure: StdMutex<Option<Failure>>,
     live_handles: StdMutex<i32>,
+    /// an operation itself failed or panicked (C07 speaks of error-free programs only)
+    op_errors: std::sync::atomic::AtomicBool,
     prop: String,
 }
 
 impl<K: SimKey> Shared<K> {
     fn flag(&self, f: Failure) {
+        if matches!(f.class.as_str(), "write-failed" | "panic" | "cleanup-failed" | "cleanup-errors" | "task-died") {
+            self.op_errors.store(true, std::sync::atomic::Ordering::Relaxed);
+        }
         let mut g = self.failure.lock().unwrap();
         // prefer a failure of the property under check
         let own = |f: &Failure| is_own(&self.prop, f);
@@ -921,6 +926,7 @@ fn one_execution<K: SimKey>(case: &Arc<Case>, spec: &Arc<ConcSpec>, pre: &Arc<Pr
         hist: StdMutex::new(Vec::new()),
         failure: StdMutex::new(None),
         live_handles: StdMutex::new(0),
+        op_errors: std::sync::atomic::AtomicBool::new(false),
         prop: case.property.clone(),
     });
     let db = base.join("db");
@@ -1100,7 +1106,9 @@ fn final_checks<K: SimKey>(sh: &Arc<Shared<K>>, cas: &Cas<K>, spec: &ConcSpec, p
         let staging: Vec<String> = s.disk.list("db/staging/").into_iter().map(|(p, _)| p.clone()).collect();
         (have, staging)
     });
-    let errors = sh.failure.lock().unwrap().is_some();
+    // only failed *operations* suspend the exact-file-set oracle; an earlier oracle failure (e.g. a
+    // dangling reference, which is C04's) must not hide the missing file from C07
+    let errors = sh.op_errors.load(std::sync::atomic::Ordering::Relaxed);
     if !errors {
         for h in &referenced {
             let p = format!("db/cas/{}", decode::cas_rel_path(h));
